@@ -24,7 +24,7 @@ fn fwd(op: &Op, _ctx: &dyn Context, operands: &mut dyn CoordinateSet) -> usize {
         let cc = c * c;
         let ss = s * s;
 
-        let dlon = coord[0] - lon_0;
+        let dlon = crate::math::angular::reduce_longitude_difference(coord[0] - lon_0);
         let oo = dlon * dlon;
 
         #[allow(non_snake_case)]
